@@ -106,8 +106,9 @@ func (r *MMapReader) SeekNext(offset uint64) (uint64, []byte, error) {
 			trialOffset := uint64(next) + uint64(i)
 			record, err := r.ReadNextAt(trialOffset)
 			if err != nil {
-				if errors.Is(err, HeaderChecksumMismatchErr) || errors.Is(err, MagicNumberMismatchErr) || errors.Is(err, io.EOF) {
-					// try to seek again, the record couldn't be read fully
+				var headerErr *recordHeaderError
+				if errors.As(err, &headerErr) || errors.Is(err, HeaderChecksumMismatchErr) || errors.Is(err, MagicNumberMismatchErr) || errors.Is(err, io.EOF) {
+					// try to seek again: no record starts here (the marker was part of a payload), or it couldn't be read fully
 					i = ix
 					continue
 				}
@@ -126,6 +127,22 @@ func (r *MMapReader) SeekNext(offset uint64) (uint64, []byte, error) {
 
 		next += int64(i)
 	}
+}
+
+// recordHeaderError marks a failure to parse a record header, as opposed to a failure to read the file. SeekNext tries
+// to parse a header wherever it finds the marker bytes, which can be inside a payload: whatever the parse fails with
+// then only means that no record starts there.
+type recordHeaderError struct {
+	msg string
+	err error
+}
+
+func (e *recordHeaderError) Error() string {
+	return e.msg
+}
+
+func (e *recordHeaderError) Unwrap() error {
+	return e.err
 }
 
 func (r *MMapReader) ReadNextAt(offset uint64) ([]byte, error) {
@@ -163,7 +180,7 @@ func (r *MMapReader) ReadNextAt(offset uint64) ([]byte, error) {
 		headerByteReader := newChecksumByteReader(bytes.NewReader(headerBufPooled[:numRead]), headerBufPooledCrc)
 		payloadSizeUncompressed, payloadSizeCompressed, recordNil, err := readRecordHeaderV4(headerByteReader)
 		if err != nil {
-			return nil, fmt.Errorf("failed reading record header at offset %d in mmap reader for '%s': %w", offset, r.path, err)
+			return nil, &recordHeaderError{fmt.Sprintf("failed reading record header at offset %d in mmap reader for '%s': %v", offset, r.path, err), err}
 		}
 
 		if recordNil {
@@ -317,7 +334,7 @@ func readNextAtV3(r *MMapReader, offset uint64) ([]byte, error) {
 	headerByteReader := NewCountingByteReader(bufio.NewReader(bytes.NewReader(headerBufPooled[:numRead])))
 	payloadSizeUncompressed, payloadSizeCompressed, recordNil, err := readRecordHeaderV3(headerByteReader)
 	if err != nil {
-		return nil, fmt.Errorf("failed reading record header at offset %d in mmap reader for '%s': %w", offset, r.path, err)
+		return nil, &recordHeaderError{fmt.Sprintf("failed reading record header at offset %d in mmap reader for '%s': %v", offset, r.path, err), err}
 	}
 
 	if recordNil {
